@@ -26,6 +26,10 @@ fn main() {
     if args.has("--miri") {
         craft::RAW_BLOCKS.store(true, std::sync::atomic::Ordering::Relaxed);
     }
+    if args.prop == "emit-corpus" {
+        hostile::emit_corpus(args.flags.first().map(|s| s.as_str()).unwrap_or("/tmp/corpus"), args.seed);
+        return;
+    }
     if args.prop.is_empty() {
         eprintln!("usage: vharness <C01..C20> [--tier quick|thorough] [--seed N] [--replay PATH]");
         std::process::exit(2);
